@@ -109,6 +109,7 @@ def handleP (op : String) : P String := do
       let cur ← nI; let tgt ← nI; let n ← nN; let cs ← rep n nI
       if cur == 0 then return "ERR zerodiv"
       return " ".intercalate ((adjustCountsPure (α := Float) cs cur tgt).map toString)
+  | "pyset" => do let n ← nN; let ks ← rep n nN; return " ".intercalate ((PySet.ofList ks).toList.map toString)
   | "round" => return toString (ScalarOps.roundHE (← nF))
   | "trunc" => return toString (ScalarOps.trunc (← nF))
   | _ => return "ERR bad-op"
@@ -146,7 +147,10 @@ def pConv : P (Conv Float) := do
       return .string vm safe
 
 def pDraw (s : String) : Draw Float :=
-  if s.startsWith "u" then .unit (pF (s.drop 1).toString) else .int (s.drop 1).toString.toNat!
+  if s.startsWith "u" then .unit (pF (s.drop 1).toString)
+  else if s.startsWith "p" then .perm (((s.drop 1).toString.splitOn ",").filterMap String.toNat?)
+  else if s.startsWith "k" then .pick (((s.drop 1).toString.splitOn ",").filterMap String.toNat?)
+  else .int (s.drop 1).toString.toNat!
 
 def sCell : Cell Float × Float → String
   | (.null, f) => s!"N:{sF f}"
@@ -173,6 +177,70 @@ def handleMicro (toks : List String) : List String :=
   match (generateMicrodata realEnv convs nulls bs).run stream with
   | .error e => ["ERR " ++ e]
   | .ok (rows, rest) => rows.map (fun r => " ".intercalate (r.map sCell)) ++ [s!"left {rest.length}"]
+
+/-! ## cluster plans -/
+
+def sOwner : StitchOwner → String
+  | .left => "L" | .right => "R" | .shared => "S"
+
+def sClusters (c : Clusters) : String :=
+  "I " ++ " ".intercalate (c.initial.map toString) ++
+    String.join (c.derivedClusters.map fun dc =>
+      s!" ; {sOwner dc.owner} {" ".intercalate (dc.stitch.map toString)} | {" ".intercalate (dc.derived.map toString)}")
+
+def mkContext (n : Nat) (m : List Float) (ent : List Float) (main : Option Nat) : ClusteringContext :=
+  let dep : Array (Array Float) := ((List.range n).map fun i => ((List.range n).map fun j => m.getD (i * n + j) 0.0).toArray).toArray
+  let totalPer := (List.range n).map fun i => pySum (((List.range n).filter (· != i)).map fun j => (dep[i]!)[j]!)
+  { dep, entropy := ent.toArray, totalDependence := pySum totalPer, totalPerColumn := totalPer.toArray, main }
+
+def handlePlan (toks : List String) : String :=
+  let main := toks.takeWhile (· ≠ "|")
+  let stream := ((toks.dropWhile (· ≠ "|")).drop 1).map pDraw
+  let p : P (ClusteringContext × Float × Float × Float × Bool) := do
+    let n ← nN
+    let m ← rep (n * n) nF
+    let ent ← rep n nF
+    let mainTok ← nxt
+    let maxw ← nF; let th ← nF; let alpha ← nF
+    let direct ← nxt
+    return (mkContext n m ent (if mainTok == "-" then none else some mainTok.toNat!), maxw, th, alpha, direct == "dosolve")
+  let (ctx, maxw, th, alpha, direct) := p.run' { toks := main.toArray }
+  match ((if direct then doSolve ctx maxw th alpha else solve ctx maxw th alpha)).run stream with
+  | .error e => "ERR " ++ e
+  | .ok (c, rest) => sClusters c ++ s!" # left {rest.length}"
+
+def handlePlanML : P String := do
+  let mainCol ← nN; let k ← nN; let feats ← rep k nN; let maxw ← nF
+  let n ← nN; let ent ← rep n nF; let drop ← nN
+  return sClusters (solveWithFeatures mainCol feats maxw ent.toArray (drop == 1))
+
+/-! ## stitching -/
+
+def pOwner (s : String) : StitchOwner := if s == "L" then .left else if s == "R" then .right else .shared
+
+def pRows (tag : String) (n w : Nat) : P (List (MRow String Float)) :=
+  (List.range n).mapM (fun r => (List.range w).mapM (fun i => do let k ← nF; return (s!"{tag}{r}c{i}", k)))
+
+def sRow (r : MRow String Float) : String := " ".intercalate (r.map (fun c => s!"{c.1}:{sF c.2}"))
+
+def handleStitch (patch : Bool) (toks : List String) : List String :=
+  let main := toks.takeWhile (· ≠ "|")
+  let stream := ((toks.dropWhile (· ≠ "|")).drop 1).map pDraw
+  let p : P (GM Float (MTable String Float)) := do
+    let owner := pOwner (← nxt)
+    let ng ← nN
+    let gmeta ← rep ng (do let lo ← nF; let hi ← nF; let ig ← nN; let e ← nF; return ((⟨lo, hi⟩ : Ival Float), ig == 1, e))
+    let k ← nN; let sc ← rep k nN
+    let d ← nN; let dcs ← rep d nN
+    let nl ← nN; let lc ← rep nl nN
+    let nr ← nN; let rc ← rep nr nN
+    let nlr ← nN; let lrows ← pRows "L" nlr nl
+    let nrr ← nN; let rrows ← pRows "R" nrr nr
+    if patch then return doPatch (lrows, lc) (rrows, rc)
+    else return doStitch (gmeta.map (·.1)) (gmeta.map (·.2.1)) (gmeta.map (·.2.2)) 0.7 (lrows, lc) (rrows, rc) ⟨owner, sc, dcs⟩
+  match (p.run' { toks := main.toArray }).run stream with
+  | .error e => ["ERR " ++ e]
+  | .ok ((rows, cols), rest) => s!"cols {" ".intercalate (cols.map toString)}" :: rows.map sRow ++ [s!"left {rest.length}"]
 
 /-! ## forest state and multi-line requests -/
 
@@ -227,7 +295,7 @@ partial def loop (h : IO.FS.Stream) (out : IO.FS.Stream) (st : DState) : IO Unit
       | .ok F =>
           out.putStrLn s!"OK {sIvs F.rootSnapped0} | {sIvs F.snapped} | {" ".intercalate (F.nullMaps.map sF)}"
           loop h out { st with forest := some F }
-      | .error e => out.putStrLn ("ERR " ++ e); loop h out st
+      | .error e => out.putStrLn ("ERR " ++ e); out.putStrLn "END"; loop h out st
   | "tree" :: comb =>
       match st.forest with
       | none => out.putStrLn "ERR no-forest"; out.putStrLn "END"
@@ -250,6 +318,20 @@ partial def loop (h : IO.FS.Stream) (out : IO.FS.Stream) (st : DState) : IO Unit
               for b in bs do out.putStrLn s!"{b.count} | {sIvs b.ivs}"
               out.putStrLn s!"drawn {drawn}"
           out.putStrLn "END"
+      loop h out st
+  | "stitch" :: rest =>
+      for l in handleStitch false rest do out.putStrLn l
+      out.putStrLn "END"
+      loop h out st
+  | "patch" :: rest =>
+      for l in handleStitch true rest do out.putStrLn l
+      out.putStrLn "END"
+      loop h out st
+  | "plan" :: rest =>
+      out.putStrLn (handlePlan rest)
+      loop h out st
+  | "planml" :: rest =>
+      out.putStrLn (handlePlanML.run' { toks := rest.toArray })
       loop h out st
   | "micro" :: rest =>
       for l in handleMicro rest do out.putStrLn l
